@@ -189,10 +189,11 @@ func genForwardedElement(t *rapid.T, withHost bool) (string, string) {
 	}
 	el := strings.Join(pairs, rapid.SampledFrom([]string{";", ";", "; "}).Draw(t, "pairsep"))
 	// forwarded-element = [ forwarded-pair ] *( ";" [ forwarded-pair ] ): a pair may be empty, at the end too
-	switch rapid.IntRange(0, 79).Draw(t, "emptypair") {
-	case 0:
+	// (a rare production: rapid's integer ranges favour small values and the ends, so the trigger sits in the middle)
+	switch rapid.IntRange(0, 39).Draw(t, "emptypair") {
+	case 17:
 		el += ";"
-	case 1:
+	case 23:
 		el = strings.Replace(el, ";", ";;", 1)
 	}
 	return el, host
